@@ -160,6 +160,13 @@ def check_spectrum(p: Problem, Ht):
     A1, B1 = dict(PA), dict(PB)
     if not p.exact:
         aA, aB = _absd(PA), _absd(PB)
+        # every entry of a float term carries rounding noise of a few eps x its size (e.g. 1e-15 entries left by the
+        # rotation into supplied eigenvectors where the exact entry vanishes); high powers of H_0 multiply it although
+        # the exact entry - and with it the plain |.|-series - vanishes there: give every entry a floor of 3e-6 x max
+        # (x RTOL = 3e-15 relative)
+        for D_ in (aA, aB):
+            for n_ in D_:
+                D_[n_] = D_[n_] + 3e-6 * float(np.max(D_[n_], initial=0.0))
         sA, sB = dict(aA), dict(aB)
     n_checked = 0
     for k in range(1, p.N + 1):
